@@ -11,12 +11,14 @@ mod rng;
 mod dns;
 mod sni;
 mod sniff;
+mod eyeballs;
 
 use std::io::{BufRead, Write};
 
 fn gen(stream: &str, seed: u64, n: u64) -> Vec<String> {
     match stream {
         "sniff-exhaustive" => return sniff::exhaustive(),
+        "eb-exhaustive" => return eyeballs::exhaustive(),
         _ => {}
     }
     let mut rng = rng::Rng::new(seed ^ fxhash(stream));
@@ -27,6 +29,7 @@ fn gen(stream: &str, seed: u64, n: u64) -> Vec<String> {
                 "dns" => dns::gen(&mut r, i),
                 "sni" => sni::gen(&mut r, i),
                 "sniff" => sniff::gen(&mut r, i),
+                "eb" => eyeballs::gen(&mut r, i),
                 _ => panic!("unknown stream {stream}"),
             };
             format!("{stream} {body}")
@@ -47,6 +50,7 @@ fn run_line(line: &str) -> String {
         "dns" => dns::run(&toks),
         "sni" => sni::run(&toks),
         "sniff" => sniff::run(&toks),
+        "eb" => eyeballs::run(&toks),
         _ => "unknown-stream".to_string(),
     };
     format!("{input} | {obs}")
